@@ -1,7 +1,7 @@
 (* C12 — second-side lists rank exactly the agents that find them acceptable.
    random.shuffle is a permutation oracle: the correspondence R_invert / R_genfile checks that every written
    second-side list is a permutation of the inversion proved correct here. *)
-From MP Require Import Gen.Quotas Proofs.GenProofs.
+From MP Require Import Gen.Quotas Proofs.GenProofs Proofs.SpaSecondSide.
 Local Open Scope list_scope. Open Scope Z_scope.
 
 (* hospital / woman j lists resident / man i exactly once iff i lists j; nobody else appears *)
@@ -22,6 +22,18 @@ Theorem C12_student_lecturers : forall plec n3 prefs l,
   forall k, In k l <-> (1 <= k <= n3 /\ exists p, In p prefs /\ py_nth plec (p - 1) = Ok k).
 Proof. exact student_lec_list_spec. Qed.
 Print Assumptions C12_student_lecturers.
+
+(* SPA: lecturer k lists student i exactly once iff i lists at least one project that k offers; nobody else
+   appears (students ranking several projects of one lecturer, lecturers nobody ranks, more lecturers than projects) *)
+Theorem C12_spa_second_side : forall prefs plec n3 sl inv,
+  0 <= n3 ->
+  create_student_lec_lists prefs plec n3 = Ok sl -> invert sl n3 = Ok inv ->
+  length inv = Z.to_nat n3 /\
+  forall k i, 1 <= k <= n3 ->
+    count_occZ (nth (Z.to_nat (k - 1)) inv []) i =
+    if (1 <=? i) && (i <=? zlen prefs) && existsb (offers plec k) (nth (Z.to_nat (i - 1)) prefs []) then 1 else 0.
+Proof. exact spa_second_side_spec. Qed.
+Print Assumptions C12_spa_second_side.
 
 Example C12_example :
   invert [[2; 1]; [2]; [3; 1]] 3 = Ok [[1; 3]; [1; 2]; [3]] /\
